@@ -66,7 +66,7 @@ fn apply(text: &str, edits: &[(usize, usize, String)]) -> String {
     out
 }
 
-const IDENT_ROLES: &[&str] = &["ref", "def", "spreaddef", "altdef", "modref", "pmodref", "qref", "impname", "impalias", "modpath", "moddef", "pref", "label", "plabel", "field", "tref"];
+const IDENT_ROLES: &[&str] = &["ref", "def", "spreaddef", "altdef", "modref", "pmodref", "qref", "impname", "impalias", "modpath", "moddef", "pref", "label", "plabel", "field", "tref", "fieldalt", "qtref", "tmodref"];
 
 fn check_program(case: &Value, prog: &Program, rng: &mut Rng, res: &mut Vec<Value>, stats: &mut (u64, u64, u64, Vec<String>)) {
     let decl_toks = lib_decl_tokens();
